@@ -37,6 +37,145 @@ pub enum COp {
     Drain,
     Clear,
     Extend2(u8, u8),
+    // HashSet programs (the set's own operations that search and insert themselves)
+    SInsert(u8),
+    SRemove(u8),
+    SGet(u8),
+    SGetOrInsert(u8),
+    SGetOrInsertWith(u8),
+    SReplace(u8),
+    STake(u8),
+    SEntry(u8),
+    SXorAssign(u8, u8),
+    SSubAssign(u8, u8),
+    SRetainEven,
+    SIterate,
+}
+
+type S = hashbrown::HashSet<TKey, PlanBuild, CheckAlloc>;
+
+fn alphabet_set(ids: &[u8]) -> Vec<COp> {
+    let mut v = Vec::new();
+    for &i in ids {
+        v.extend([COp::SInsert(i), COp::SRemove(i), COp::SGet(i), COp::SGetOrInsert(i), COp::SGetOrInsertWith(i), COp::SReplace(i), COp::STake(i), COp::SEntry(i)]);
+    }
+    v.extend([COp::SRetainEven, COp::SIterate]);
+    if ids.len() >= 2 {
+        v.push(COp::SXorAssign(ids[0], ids[1]));
+        v.push(COp::SSubAssign(ids[0], ids[1]));
+    }
+    v
+}
+
+fn structure_set(m: &S, what: &dyn Fn() -> String) -> Result<(), String> {
+    let d = m.verif_dump();
+    inv::check_structure(&d, inv::Which { lawful_hash: false }, &|_| None).map_err(|e| format!("{}: {e}", what()))?;
+    if m.capacity() < m.len() {
+        return Err(format!("{}: capacity() < len()", what()));
+    }
+    let mut n = 0usize;
+    for k in m.iter() {
+        n += 1;
+        if n > m.len() + 2 {
+            break;
+        }
+        if !env::reg_is_live(k.serial) {
+            return Err(format!("{}: the set yields an element that is not live", what()));
+        }
+    }
+    if n != m.len() {
+        return Err(format!("{}: len() = {} but iter() yields {n}", what(), m.len()));
+    }
+    Ok(())
+}
+
+fn apply_set(s: &mut S, op: COp, tok: &mut u32) -> Result<(), String> {
+    let mut t = || {
+        *tok += 1;
+        *tok
+    };
+    match op {
+        COp::SInsert(i) => {
+            s.insert(TKey::make(i, t()));
+        }
+        COp::SRemove(i) => {
+            s.remove(&KeyRef(i));
+        }
+        COp::SGet(i) => {
+            if let Some(k) = s.get(&KeyRef(i)) {
+                if !env::reg_is_live(k.serial) {
+                    return Err("get() returned a reference to an element that is not live".into());
+                }
+            }
+            let _ = s.contains(&TKey::make(i, 0));
+        }
+        COp::SGetOrInsert(i) => {
+            let k = s.get_or_insert(TKey::make(i, t()));
+            if !env::reg_is_live(k.serial) {
+                return Err("get_or_insert() returned a reference to an element that is not live".into());
+            }
+        }
+        COp::SGetOrInsertWith(i) => {
+            let tk = t();
+            // the documented panic ("new value is not equivalent") is allowed under an unlawful Eq
+            let r = env::catch(|| {
+                let k = s.get_or_insert_with(&KeyRef(i), |q| TKey::make(q.0, tk));
+                (k.serial, k.id)
+            });
+            match r {
+                Ok((serial, _)) => {
+                    if !env::reg_is_live(serial) {
+                        return Err("get_or_insert_with() returned a reference to an element that is not live".into());
+                    }
+                }
+                Err(msg) => {
+                    if !msg.contains("not equivalent") {
+                        return Err(format!("get_or_insert_with panicked with an undocumented message: {msg}"));
+                    }
+                }
+            }
+        }
+        COp::SReplace(i) => {
+            s.replace(TKey::make(i, t()));
+        }
+        COp::STake(i) => {
+            s.take(&KeyRef(i));
+        }
+        COp::SEntry(i) => match s.entry(TKey::make(i, t())) {
+            hashbrown::hash_set::Entry::Occupied(o) => {
+                o.remove();
+            }
+            hashbrown::hash_set::Entry::Vacant(v) => {
+                v.insert();
+            }
+        },
+        COp::SXorAssign(a, b) | COp::SSubAssign(a, b) => {
+            let mut o = S::default();
+            o.insert(TKey::make(a, t()));
+            o.insert(TKey::make(b, t()));
+            if matches!(op, COp::SXorAssign(..)) {
+                *s ^= &o;
+            } else {
+                *s -= &o;
+            }
+        }
+        COp::SRetainEven => s.retain(|k| k.id % 2 == 0),
+        COp::SIterate => {
+            let n = s.iter().count();
+            if n != s.len() {
+                return Err(format!("iteration yields {n} elements, len() = {}", s.len()));
+            }
+        }
+        _ => return Err("MACHINERY: map operation in a set program".into()),
+    }
+    Ok(())
+}
+
+fn is_set_op(op: COp) -> bool {
+    matches!(
+        op,
+        COp::SInsert(_) | COp::SRemove(_) | COp::SGet(_) | COp::SGetOrInsert(_) | COp::SGetOrInsertWith(_) | COp::SReplace(_) | COp::STake(_) | COp::SEntry(_) | COp::SXorAssign(..) | COp::SSubAssign(..) | COp::SRetainEven | COp::SIterate
+    )
 }
 
 fn alphabet(ids: &[u8]) -> Vec<COp> {
@@ -170,6 +309,7 @@ fn apply(m: &mut M, op: COp, tok: &mut u32) -> Result<(), String> {
             let items = vec![(TKey::make(a, t()), TVal::make(t())), (TKey::make(b, t()), TVal::make(t()))];
             m.extend(items);
         }
+        _ => return Err("MACHINERY: set operation in a map program".into()),
     }
     Ok(())
 }
@@ -180,14 +320,19 @@ fn execute(plan: &[u64; 256], alt: &[[u64; 3]; 256], seed: &[COp], ops: &[COp], 
     env::set_plan(plan);
     env::with(|e| e.alt = *alt);
     let mut m = M::default();
+    let mut st = S::default();
     let mut tok = 1000u32;
     for &op in seed {
-        apply(&mut m, op, &mut tok).map_err(|e| format!("MACHINERY: seed failed: {e}"))?;
+        if is_set_op(op) {
+            apply_set(&mut st, op, &mut tok).map_err(|e| format!("MACHINERY: seed failed: {e}"))?;
+        } else {
+            apply(&mut m, op, &mut tok).map_err(|e| format!("MACHINERY: seed failed: {e}"))?;
+        }
     }
     env::set_choosing(true, prefix.to_vec());
     let mut res: Result<(), String> = Ok(());
     for (i, &op) in ops.iter().enumerate() {
-        let r = env::catch(|| apply(&mut m, op, &mut tok));
+        let r = env::catch(|| if is_set_op(op) { apply_set(&mut st, op, &mut tok) } else { apply(&mut m, op, &mut tok) });
         match r {
             Ok(Ok(())) => {}
             Ok(Err(e)) => {
@@ -206,7 +351,7 @@ fn execute(plan: &[u64; 256], alt: &[[u64; 3]; 256], seed: &[COp], ops: &[COp], 
         });
         let _ = log;
         env::set_choosing_flag(false);
-        let s = structure(&m, &|| format!("after operation {i} ({:?})", op));
+        let s = structure(&m, &|| format!("after operation {i} ({:?})", op)).and_then(|_| structure_set(&st, &|| format!("after operation {i} ({:?})", op)));
         env::set_choosing_flag(true);
         if let Err(e) = s {
             res = Err(e);
@@ -224,6 +369,14 @@ fn execute(plan: &[u64; 256], alt: &[[u64; 3]; 256], seed: &[COp], ops: &[COp], 
         }
     }
     drop(m);
+    if res.is_ok() {
+        let l = st.len();
+        let n = st.drain().count();
+        if n != l {
+            res = Err(format!("set: drain() yields {n} elements but len() was {l}"));
+        }
+    }
+    drop(st);
     if res.is_ok() {
         res = end_of_run_checks(&ZERO_BASE);
     }
@@ -311,6 +464,9 @@ impl Choices {
             SeedDef { name: "max-plan-tombstones-b", plan: Plan::Max, seed: max_tombs_b, ids: vec![fill - 1, 100], len: 1, dev: 2 },
             SeedDef { name: "max-plan-tombstones-c", plan: Plan::Max, seed: max_tombs_c, ids: vec![0, 100], len: 1, dev: 2 },
             SeedDef { name: "full-load", plan: Plan::Zero, seed: full, ids: vec![3, 100], len: if q { 1 } else { 2 }, dev: 3 },
+            SeedDef { name: "set-empty", plan: Plan::Zero, seed: vec![], ids: vec![0, 1], len: 2, dev: 3 },
+            SeedDef { name: "set-three-keys", plan: Plan::Cluster(2), seed: (0..3).map(COp::SInsert).collect(), ids: vec![1, 5], len: 2, dev: 3 },
+            SeedDef { name: "set-tombstone-saturated", plan: Plan::Zero, seed: (0..fill).map(COp::SInsert).chain((0..tomb).map(COp::SRemove)).collect(), ids: vec![tomb + 1, 100], len: if q { 1 } else { 2 }, dev: 3 },
         ]
     }
 }
@@ -347,7 +503,7 @@ impl Config for Choices {
         for sd in self.seeds() {
             let plan = sd.plan.table();
             let alt = alt_table(&plan);
-            let seqs = sequences(&alphabet(&sd.ids), sd.len);
+            let seqs = sequences(&if sd.name.starts_with("set-") { alphabet_set(&sd.ids) } else { alphabet(&sd.ids) }, sd.len);
             let next = AtomicUsize::new(0);
             let c0 = count.load(Ordering::Relaxed);
             std::thread::scope(|sc| {
